@@ -730,16 +730,44 @@ func c06Namespace(t *testing.T, out *vh.Out) {
 		}
 		return m
 	}
+	// CROSS-namespace requester (flow xsecret): a ROOT-namespace service token whose root-namespace policy names the
+	// child namespace's engine; its leases live in c06ns, its token index in the root namespace
+	if cl, _ := vhReq(c, logical.UpdateOperation, "sys/policies/acl/c06x", root, map[string]any{"policy": `path "c06ns/rec/*" { capabilities = ["read"] }`}); cl != "ok" {
+		t.Fatal("cross policy", cl)
+	}
+	xflow := false
 	requester := func() string {
-		cl, resp := vhReq(c, logical.UpdateOperation, "c06ns/auth/token/create", root, map[string]any{"ttl": "1h", "policies": []string{"c06pol"}})
+		path, pol := "c06ns/auth/token/create", "c06pol"
+		if xflow {
+			path, pol = "auth/token/create", "c06x"
+		}
+		cl, resp := vhReq(c, logical.UpdateOperation, path, root, map[string]any{"ttl": "1h", "policies": []string{pol}})
 		if cl != "ok" || resp == nil || resp.Auth == nil {
 			t.Fatalf("ns requester: %s", cl)
 		}
 		return resp.Auth.ClientToken
 	}
+	// "for secrets, its token index entry exists": the lease handed out is found from its owning token (what
+	// revocation of the token walks)
+	indexed := func(tok string, resp *logical.Response) bool {
+		te, err := c.tokenStore.Lookup(vhRootCtx(), tok)
+		if err != nil || te == nil {
+			return true // (the token is gone: nothing to judge)
+		}
+		ids, err := c.expiration.lookupLeasesByToken(vhRootCtx(), te)
+		if err != nil {
+			return false
+		}
+		for _, id := range ids {
+			if id == resp.Secret.LeaseID {
+				return true
+			}
+		}
+		return false
+	}
 	run := func(flow, tok string) (string, *logical.Response) {
 		switch flow {
-		case "secret":
+		case "secret", "xsecret":
 			return vhReq(c, logical.ReadOperation, "c06ns/rec/lease/a", tok, nil)
 		case "wrap":
 			req := &logical.Request{Operation: logical.ReadOperation, Path: "c06ns/rec/lease/a", ClientToken: tok,
@@ -753,7 +781,8 @@ func c06Namespace(t *testing.T, out *vh.Out) {
 			return vhReq(c, logical.UpdateOperation, "c06ns/auth/token/create", tok, map[string]any{"ttl": "20m", "policies": []string{"c06pol"}})
 		}
 	}
-	for _, flow := range []string{"secret", "wrap", "login", "create"} {
+	for _, flow := range []string{"secret", "wrap", "login", "create", "xsecret"} {
+		xflow = flow == "xsecret"
 		// dry run: number of storage ops of the request
 		tok := requester()
 		e.p.Tag(0)
@@ -791,6 +820,8 @@ func c06Namespace(t *testing.T, out *vh.Out) {
 			switch {
 			case cl == "ok" && handed && added < 1:
 				res = fmt.Sprintf("bad:handed out without a lease entry in the namespace (flow %s, fault %d)", flow, k)
+			case cl == "ok" && resp != nil && resp.Secret != nil && resp.Secret.LeaseID != "" && !indexed(tok, resp):
+				res = fmt.Sprintf("bad:secret handed out with lease %s, which is not in the token index of its owning token (flow %s, fault %d): revoking the token does not reach it", resp.Secret.LeaseID, flow, k)
 			case cl != "ok" && flow == "wrap" && (i1-i0)-(r1-r0) > added:
 				// (a failed wrapping may leave the secret live as long as it is durably leased: it then expires on its own)
 				res = fmt.Sprintf("bad:wrapping failed (%s) and the generated secret is neither revoked nor leased in the namespace (fault %d)", cl, k)
